@@ -309,11 +309,18 @@ def run(ctx):
     ctx.assumes.append("model = /repo (incl. its commit f430c25 'contract_einsum looked up an einsum label in a list of positions') with proposed_fixes/C07-is-consistent-leg-count.diff; "
                        "tensor data are ring elements (exact arithmetic); the tree path is proved through a verified checker (check_root_sound) executed in Coq on "
                        "every tree of the run (the universal theorem about the builder is not proved)")
+    ctx.trusted.append("TN translation (gen/tn.py -> Run.GenTN, fail-closed): merge's fresh-id arithmetic / join validation / del_axes / kept axes, "
+                       "the preconditions of rename_tensor, rename_bond, SymbolicBond, SymbolicTensor.transpose, every `return False` condition of "
+                       "is_consistent, the first tree id and bump rule, as_einsum's sort key and axes-map rule are regenerated from symbolic_network.py "
+                       "and proved equal to what the model uses (C07_source_*, C08_source_*); PINNED by exact source text, not translated: the loop "
+                       "skeleton of is_consistent, its pair-repetition test, as_einsum's first-occurrence rule, transpose's distinctness test; "
+                       "all loops (rename, merge_tensors/bonds, get_bond_axes, as_einsum unification/condensation, tree builder) stay hand-modelled")
     ctx.rules.append("random consistent networks (0-6 tensors, degree<=4, bond dims 1-3, hyper-bonds<=5 legs, multi-edges, self-traces, "
                      "shared open bonds, identity wires, negative ids) with small Gaussian-integer data; scaffolds: all binary trees with "
                      "both child orders for n<=3 (thorough: n<=5), random otherwise. non-trivial = >=2 tensors and one of hyper-bond, "
                      "multi-edge, shared open bond, self-trace")
-    ctx.lib(["TN/TNCheck", "TN/TNTreeCheck"])
+    ctx.lib(["TN/TNCheck", "TN/TNTreeCheck", "TN/TNConsistentConv", "TN/TNGenBase"])
+    ctx.translate("GenTN", tn.generate)
     ctx.props()
     rng = ctx.rng
     cases = []
